@@ -1015,7 +1015,16 @@ pub fn run(line: &str) -> Option<(String, Vec<String>)> {
             if pieces.is_empty() {
                 parts.push("-".to_string());
             } else {
-                let blk = &blocks[b * bpb..(b + 1) * bpb];
+                let mut blk = blocks[b * bpb..(b + 1) * bpb].to_vec();
+                if matches!(f, F::Bc2 | F::Bc2p) {
+                    // explicit alpha of a partial block: blank the nibbles of the positions outside the image (which
+                    // pixel the padding repeats is outside the property; the model blanks the same nibbles)
+                    for p in 0..16 {
+                        if (inside >> p) & 1 == 0 {
+                            blk[p / 2] &= if p % 2 == 0 { 0xF0 } else { 0x0F };
+                        }
+                    }
+                }
                 parts.push(pieces.iter().map(|&(off, len)| format!("{}:{}", off, hex_encode(&blk[off..off + len]))).collect::<Vec<_>>().join(","));
             }
         }
@@ -1401,12 +1410,15 @@ fn gen_discrete(seed: u64, thorough: bool, specs: &mut Vec<Spec>) {
         let o = Opts { q, m: 'U', d: 'N' };
         let stride = if q == 'U' { 16 } else { 1 };
         for a0 in (0..256usize).step_by(4 * stride) {
-            let levels: Vec<(u8, u8)> = (0..4)
+            let grid = |v: u64| -> u8 {
+                if bits == 5 { ((v << 3) | (v >> 2)) as u8 } else { ((v << 1) | (v >> 6)) as u8 }
+            };
+            // green offset in grid steps (7-bit grid only): 3 steps = 6 or 7 < COLOR_VARIANCE_THRESHOLD (still forced),
+            // 4 steps = 8 or 9 (no longer "approximately grey": nothing forced, Rotation::None is skipped)
+            let goff: [u64; 4] = if bits == 7 { [0, 3, 4, 0] } else { [0; 4] };
+            let levels: Vec<(u64, u64)> = (0..4)
                 .map(|_| loop {
-                    let grid = |v: u64| -> u8 {
-                        if bits == 5 { ((v << 3) | (v >> 2)) as u8 } else { ((v << 1) | (v >> 6)) as u8 }
-                    };
-                    let (u, v) = (grid(rng.below(1 << bits)), grid(rng.below(1 << bits)));
+                    let (u, v) = (rng.below((1 << bits) - 4), rng.below((1 << bits) - 4));
                     if u != v {
                         break (u, v);
                     }
@@ -1414,8 +1426,8 @@ fn gen_discrete(seed: u64, thorough: bool, specs: &mut Vec<Spec>) {
                 .collect();
             let mut r2 = Rng::new(rng.next());
             let img = block_row(4, |b, p| {
-                let g = if p == 0 || r2.chance(1, 2) { levels[b].0 } else { levels[b].1 };
-                [g, g, g, (a0 + b * stride) as u8]
+                let l = if p == 0 || r2.chance(1, 2) { levels[b].0 } else { levels[b].1 };
+                [grid(l), grid(l + goff[b]), grid(l), (a0 + b * stride) as u8]
             });
             specs.push(Spec { class: "b7g", f: F::Bc7, o, img, wit: None });
         }
